@@ -344,6 +344,19 @@ def opaque_tensor(shape, dtype, name='rnd', lib='torch'):
     return atom_tensor('%s!%d' % (name, next(_ids)), shape, dtype, lib=lib)
 
 
+def opaque_with_axes(axes, dtype, name='opq', lib='torch'):
+    """opaque atoms over given axes (factor structure of the axes is kept; atoms are indexed by the flat index)"""
+    n = len(axes)
+    f = z3.Function('%s!%d' % (name, next(_ids)), *([z3.IntSort()] * max(n, 1) + [z3.RealSort()]))
+
+    def val(idx):
+        args = [to_int(flatten_ix(i, ax.factors)) if len(ax.factors) > 1 else to_int(i[0]) for i, ax in zip(idx, axes)] if n else [z3.IntVal(0)]
+        return Term.of(f(*args))
+    t = STensor(list(axes), dtype, val, lib=lib)
+    t.name = name
+    return t
+
+
 def from_data(data, dtype=None):
     """tn.tensor(python data)"""
     if isinstance(data, STensor):
@@ -472,6 +485,11 @@ def _permute_ghost(t, nd):
                 g[b] = True
         if 'mat' in t.ghost:
             g['mat'] = ('T', t.ghost['mat'])
+        from . import gauge
+
+        class _O(object):
+            ghost = g
+        gauge.on_transpose(t, _O)
     return g
 
 
@@ -574,10 +592,8 @@ def reshape(t, shape):
         srcidx = [tuple(fmap[f.id] for f in a.factors) for a in t.axes]
         return t.at(srcidx)
     out = STensor(new_axes, t.dtype, val if t._val else None, lib=t.lib, contiguous=True)
-    if 'fro2' in t.ghost:
-        out.ghost['fro2'] = t.ghost['fro2']
-    if 'svals' in t.ghost:
-        out.ghost['svals'] = t.ghost['svals']
+    from . import gauge
+    gauge.on_reshape(t, out)
     if t.contiguous:
         return derive(out, t, view_of=t)
     out.maybe_view_of = t
@@ -752,6 +768,11 @@ def slice_params(s, n):
             return min(max(v, 0), n)
         v = to_int(v)
         nn = to_int(n)
+        pc = ex().pc
+        if pc.implied(z3.And(v >= 0, v <= nn)):
+            return sz(v)
+        if pc.implied(v >= nn):
+            return n
         w = z3.If(v < 0, v + nn, v)
         return z3.If(w < 0, 0, z3.If(w > nn, nn, w))
     start = norm(s.start, 0)
@@ -866,6 +887,9 @@ def getitem(t, index):
                   ival=val_gen(lambda src: t.ival([t._norm_ix(a, i) for a, i in zip(t.axes, src)])) if t.ival else None)
     if hasattr(t, 'int_range'):
         out.int_range = t.int_range
+    if adv is None and len(full) == n:
+        from . import gauge
+        gauge.on_getitem(t, out, full)
     if adv is not None:
         return derive(out, t)          # advanced indexing copies
     return derive(out, t, view_of=t)
@@ -1344,6 +1368,8 @@ def diag(t):
         out = STensor(axes, t.dtype, val if t._val else None, lib=t.lib)
         if 'svals' in t.ghost:
             out.ghost['diag_of'] = t
+        from . import gauge
+        gauge.on_diag(t, out)
         return derive(out, t)
     if t.ndim == 2:
         n0, n1 = t.axes[0].size, t.axes[1].size
@@ -1584,6 +1610,8 @@ def _matmul_ghost(a, b, out):
     if gb.get('orth_rows') and 'fro2' in ga:
         out.ghost['fro2'] = ga['fro2']          # ||A Q^H||... rows orthonormal: ||A V||_F = ||A||_F
     out.ghost['prod'] = (a, b)
+    from . import gauge
+    gauge.on_matmul(ex(), a, b, out)
 
 
 def sum_(t, dim=None, keepdim=False):
@@ -1645,8 +1673,8 @@ def fro_norm(t):
     if dt in COMPLEX:
         dt = 'float64' if dt == 'complex128' else 'float32'
     out = STensor([], dt, val, lib=t.lib)
-    if 'fro2' in t.ghost:
-        out.ghost['norm_of_fro2'] = t.ghost['fro2']
+    from . import gauge
+    gauge.norm_scalar(ex(), t, out)
     out.ghost['norm_of'] = t
     return derive(out, t)
 
